@@ -6,8 +6,8 @@ From Coq Require Import List ZArith NArith String Bool.
 From SCC Require Import Lang.FunSyn Lang.CoreSyn Sem.AxSem Sem.CoreSem Sem.FunSem Model.Fun2Core
      Proof.Fun2CoreProof Proof.Fun2CoreInv Proof.Fun2CoreRel Proof.Fun2CoreProg.
 Import ListNotations.
-Open Scope string_scope.
-Open Scope Z_scope.
+Local Open Scope string_scope.
+Local Open Scope Z_scope.
 
 Definition vI (x : string) : fterm := FVar x (Some FI64) (Some FPrd).
 Definition pI (x : string) : fbinding := mkfb x FPrd FI64.
